@@ -202,6 +202,54 @@ def fitDiscreteMc {α : Type} [NatCast α] [Div α] (X : List (List Rat)) (grids
     let prod := QE.C16.cartesian grids orderF
     some (sv.map (fun k => prod.getD k []), P)
 
+/-! ### discrete_var: the glue around `fit_discrete_mc` (approximation.py, `discrete_var`)
+
+The simulated path `X` (from `simulate_linear_model`) and the stationary standard deviations
+`sigma_vector = sqrt(diag(solve_discrete_lyapunov(A, C C')))` are external inputs; what is
+modelled is what `discrete_var` itself does with them: default grid sizes, the symmetric
+`linspace` grids of half width `std_devs * sigma_vector[i]`, and the call of `fit_discrete_mc`. -/
+
+section dvar
+variable {γ : Type} [Zero γ] [Add γ] [Sub γ] [Mul γ] [Div γ] [Neg γ] [NatCast γ] [BEq γ]
+  [LE γ] [LT γ] [DecidableLE γ] [DecidableLT γ]
+
+/-- `fit_discrete_mc` over any scalar type (at `Rat` this is `fitDiscreteMc`) -/
+def fitDiscreteMcG {α : Type} [NatCast α] [Div α] (X grids : List (List γ)) (orderF : Bool) :
+    Option (List (List γ) × List (List α)) :=
+  match estimateMc (α := α) (X.map fun x => QE.C16.nearestIndex grids x orderF) with
+  | none => none
+  | some (sv, P) => some (sv.map (fun k => (QE.C16.cartesian grids orderF).getD k []), P)
+
+/-- `grid_sizes = np.full(m, 10)` when `grid_sizes is None` -/
+def dvarSizes (m : Nat) (gridSizes : Option (List Nat)) : List Nat :=
+  match gridSizes with
+  | none => List.replicate m 10
+  | some s => s
+
+/-- `V = [np.linspace(-upper_bounds[i], upper_bounds[i], grid_sizes[i]) for i in range(m)]`,
+    `upper_bounds = std_devs * sigma_vector` -/
+def dvarGrids (sigmaVec : List γ) (stdDevs : γ) (sizes : List Nat) : List (List γ) :=
+  (List.range sigmaVec.length).map fun i =>
+    linspace (-(stdDevs * sigmaVec.getD i 0)) (stdDevs * sigmaVec.getD i 0) (sizes.getD i 0)
+
+/-- `discrete_var` after the simulation and the Lyapunov solve: `IndexError` when `grid_sizes`
+    has fewer than `m` entries or one of its first `m` entries is 0 (empty grid), `ValueError` from `fit_discrete_mc`/`MarkovChain` when some
+    visited state is never left, otherwise `(state_values, P)` -/
+def discreteVar {α : Type} [NatCast α] [Div α] (sigmaVec : List γ) (stdDevs : γ)
+    (gridSizes : Option (List Nat)) (X : List (List γ)) (orderF : Bool) :
+    Except String (List (List γ) × List (List α)) :=
+  let m := sigmaVec.length
+  let sizes := dvarSizes m gridSizes
+  if sizes.length < m then .error "IndexError"
+  else if (List.range m).any (fun i => sizes.getD i 0 == 0) then
+    .error "IndexError"     -- `type(e[0])` on an empty grid in `cartesian_nearest_index`
+  else
+    match fitDiscreteMcG (α := α) X (dvarGrids sigmaVec stdDevs sizes) orderF with
+    | none => .error "ValueError"
+    | some r => .ok r
+
+end dvar
+
 /-! ### line protocol -/
 
 /-- `⌊q·2^80⌋` — a fixed-point rendering of big rationals (absolute error < 2^-80) -/
@@ -307,6 +355,20 @@ def handle (toks : List String) : String :=
       | some (sv, P) => "idx=" ++ showList toString idx ++ " states=" ++ showMat showRat sv ++
           " P=" ++ showMat showRat P
     | _, _, _ => "bad-op"
+  | "dvar" :: r =>
+    -- discrete_var given sigma_vector and the simulated path (rows = observations), Float arithmetic
+    match kvFloats r "sigma", kvFloat r "std", kv r "sizes", kvFloatMat r "X", kv r "order" with
+    | some sigma, some std, some sz, some X, some o =>
+      let sizes? : Option (Option (List Nat)) :=
+        if sz = "none" then some none else (parseList? parseNat? sz).map some
+      match sizes? with
+      | none => "bad-op"
+      | some gs =>
+        if X.isEmpty ∨ (o ≠ "C" ∧ o ≠ "F") then "bad-op" else
+        match discreteVar (α := Rat) sigma std gs X (o = "F") with
+        | .error e => "ERR:" ++ e
+        | .ok (sv, P) => "states=" ++ showMat showFloatBits sv ++ " P=" ++ showMat showRat P
+    | _, _, _, _, _ => "bad-op"
   | _ => "bad-op"
 
 /-- a history of requests in one process: the functions of this property keep no state, so the
